@@ -9,7 +9,7 @@ Model of the render rate limit (pugjs/engine.go Render): a buffered channel of c
 
 State: the threads waiting at the select, the threads past the gate (with whether they hold a slot), the channel
 occupancy `slots`, and what finished threads got. Events are the atomic steps of the Go code; wake-up order is Go's choice,
-so `admit` may pick any waiter.
+so `grant` may pick any waiter.
 -/
 namespace Pug.Sys
 
@@ -24,7 +24,7 @@ inductive Outcome where
 
 inductive GEv where
   | arrive (t : Nat)          -- Render is called
-  | admit (t : Nat)           -- the send on the channel succeeds
+  | grant (t : Nat)           -- the send on the channel succeeds
   | cancel (t : Nat)          -- ctx.Done() wins the select
   | exit (t : Nat) (k : ExitKind)   -- Render leaves (deferred receive runs if a slot is held)
   deriving Repr, DecidableEq
@@ -48,7 +48,7 @@ def gstep (s : GState) : GEv → Option GState
     if s.known t then none
     else if s.cap = 0 then some { s with inside := s.inside ++ [(t, false)] }     -- `cap(e.ratelimit) > 0` is false: no gate
     else some { s with waiting := s.waiting ++ [t] }
-  | .admit t =>
+  | .grant t =>
     if s.waiting.contains t && s.slots < s.cap then
       some { s with waiting := s.waiting.erase t, inside := s.inside ++ [(t, true)], slots := s.slots + 1 }
     else none
